@@ -400,6 +400,31 @@ def check_euler_band(w, rep, p, RULE, W):
                   fact={"half_width_rad": width})
 
 
+def check_antipode(w, rep):
+    """q = (-1, 0, 0, 0) is a unit quaternion of the identity rotation ("for all rotations ... near-identity"): constant
+    propagation of that point through every conversion with a quaternion source (and through to_Matrix) must not meet a
+    division by zero, sqrt(0), acos/asin(+-1) or atan2(0,0) on the selected path."""
+    from ..pointscan import Scan
+    Q = w.G("SO3Quat")
+    X, q = w.fresh(Q, "q")
+    pt = dict(zip(sym_atoms_of(q), [Fraction(-1), Fraction(0), Fraction(0), Fraction(0)]))
+    for dst in ("SO3Mrp", "SO3Dcm", "SO3EulerB321"):
+        G = w.G(dst)
+        ok, Y = guarded(w, rep, "C07.valid", "%s.from_Quat at q = -1" % dst, lambda: w.call(G, "from_Quat", X))
+        if not ok:
+            continue
+        sc = Scan(pt)
+        for p_ in w.param(Y).flat():
+            sc.poly(p_)
+        inst = "%s.from_Quat(q = (-1,0,0,0)) evaluates no singular operator" % dst
+        if sc.flags:
+            a0, why = sc.flags[0]
+            rep.fail("C07.valid", inst, "%s [%s]: the identity rotation given with a negative scalar part converts to NaN" % (why, short(Poly.atom(a0), 80)),
+                     where=w.method_where(G, "from_Quat")[:2])
+        else:
+            rep.ok("C07.valid", inst, fact={"atoms_visited": len(sc.memo)})
+
+
 def check_poles(w, rep):
     """Euler from_Matrix at the gimbal poles: with pitch exactly +-pi/2 the pole branch must reproduce the matrix."""
     E = w.G("SO3EulerB321")
@@ -460,13 +485,14 @@ def run(w, rep, tier):
     rep.rule("C07.from-matrix", "SO3Quat.from_Matrix is a right inverse of to_Matrix on matrices built from a quaternion, an MRP and Euler angles, on each of the four Shepperd selections")
     rep.rule("C07.shepperd", "Shepperd selections return their pivot in slot order with the matching radicand sign pattern")
     rep.rule("C07.SIB", "SO3Dcm.from_Mrp, from_Mrp_alternative and SO3Mrp.to_Matrix denote the same matrix")
-    rep.rule("C07.valid", "results are valid representatives: unit quaternions, orthonormal matrices, shadow-switched MRPs")
+    rep.rule("C07.valid", "results are valid representatives: unit quaternions, orthonormal matrices, shadow-switched MRPs; the identity given as q = (-1,0,0,0) converts without a singular operation")
     rep.rule("C07.euler", "Euler from_Matrix: asin in the pitch slot on every branch; both gimbal poles tested with a band of half width <= 1e-3 rad (test on the angle or on its sine); exact poles reproduce the matrix")
     rep.rule("C07.flow", "conversions defined by composition are routed through the stated intermediate representation")
     check_pairs(w, rep, tier)
     check_from_matrix(w, rep)
     check_siblings_and_validity(w, rep)
     check_poles(w, rep)
+    check_antipode(w, rep)
     check_flow(w, rep)
     rep.floor("C07.API", 12)
     rep.floor("C07.preserve", 6)
